@@ -32,3 +32,16 @@ impl Default for Sender {
         Self::new()
     }
 }
+
+/// Inserts one fresh path secret shared by the two maps: `client` gets the entry for
+/// `server_addr`, `server` the matching entry for `client_addr`; each entry's stateless reset
+/// tag is the other map's signer applied to the credential id. Thin wrapper around the
+/// crate-private `Map::test_insert_pair`.
+pub fn insert_pair(
+    client: &super::Map,
+    client_addr: std::net::SocketAddr,
+    server: &super::Map,
+    server_addr: std::net::SocketAddr,
+) -> crate::credentials::Id {
+    client.test_insert_pair(client_addr, None, server, server_addr, None)
+}
